@@ -93,6 +93,30 @@ def norm_txt(s):
     return s.replace(' ', '').replace('.conj()', '').replace('(3,)', '3').replace('((3))', '(3)').replace('((3,1))', '(3,1)')
 
 
+def flag_branches(if_node, flag):
+    """(body when the boolean parameter `flag` is false, body when it is true) of `if <test on flag>: ... else: ...`,
+    whichever way round the maintainer wrote the test; None when the test is not a test of the flag alone."""
+    t = if_node.test
+    neg = False
+    while isinstance(t, ast.UnaryOp) and isinstance(t.op, ast.Not):
+        t, neg = t.operand, not neg
+    truth = None
+    if isinstance(t, ast.Name) and t.id == flag:
+        truth = True
+    elif isinstance(t, ast.Compare) and len(t.ops) == 1 and isinstance(t.left, ast.Name) and t.left.id == flag \
+            and isinstance(t.comparators[0], ast.Constant) and isinstance(t.comparators[0].value, bool):
+        eq = isinstance(t.ops[0], (ast.Eq, ast.Is))
+        ne = isinstance(t.ops[0], (ast.NotEq, ast.IsNot))
+        if eq or ne:
+            truth = (t.comparators[0].value is True) == eq
+    if truth is None:
+        return None
+    if neg:
+        truth = not truth
+    # truth: the BODY runs when flag is `truth`
+    return (if_node.orelse, if_node.body) if truth else (if_node.body, if_node.orelse)
+
+
 def check(model, rep):
     rep.extra['explanation'] = (
         'Coverage (non-interference) analysis of every constructor form: which elements of the initializer reach which slot; '
@@ -113,7 +137,10 @@ def check(model, rep):
     branches = [n for n in f6.body() if isinstance(n, ast.If)]
     if not branches:
         raise AnalysisError('from6DOF: rpy dispatch not recognised')
-    for label, body in (('axis-angle', branches[0].body), ('rpy', branches[0].orelse)):
+    fb = flag_branches(branches[0], f6.params[2])
+    if fb is None:
+        raise AnalysisError('from6DOF: rpy dispatch not recognised')
+    for label, body in (('axis-angle', fb[0]), ('rpy', fb[1])):
         st = [n for n in body if isinstance(n, ast.Assign) and src(n.targets[0]) == 'self.TAA']
         elts = slot_literal(st[0].value) if st else None
         ok, msg = False, 'six-slot literal not found'
@@ -150,14 +177,17 @@ def check(model, rep):
     f3 = M('from3DOF')
     ia3 = f3.params[1]
     br3 = [n for n in f3.body() if isinstance(n, ast.If)]
+    fb3 = flag_branches(br3[0], f3.params[2]) if br3 else None
+    if br3 and fb3 is None:
+        raise AnalysisError('from3DOF: rpy dispatch not recognised')
     if br3:
-        st = [n for n in br3[0].body if isinstance(n, ast.Assign) and src(n.targets[0]) == 'self.TAA']
+        st = [n for n in fb3[0] if isinstance(n, ast.Assign) and src(n.targets[0]) == 'self.TAA']
         elts = slot_literal(st[0].value) if st else None
         ok = elts is not None and all(isinstance(elts[k], ast.Constant) and elts[k].value == 0 for k in range(3)) and \
             all(index_path(elts[3 + k], ia3) == (k,) for k in range(3))
         rep.ob('R04.1', f3, 'from3DOF (axis-angle): elements 0..2 -> slots 3..5', ok, 'rotation elements are not placed one-to-one')
         used = {}
-        for n in br3[0].orelse:
+        for n in fb3[1]:
             for c in ast.walk(n):
                 if isinstance(c, ast.Call) and src(c.func) == 'tm' and c.args and isinstance(c.args[0], ast.List) and len(c.args[0].elts) == 6:
                     for pos, el in enumerate(c.args[0].elts):
